@@ -1,7 +1,7 @@
 ----------------------------- MODULE WorkManager -----------------------------
 (***************************************************************************)
 (* Implementation-shaped model of neutrino's query dispatcher              *)
-(* (query/workmanager.go workDispatcher :183, Query :678, Stop :170) with  *)
+(* (query/workmanager.go workDispatcher :183, Query :703, Stop :170) with  *)
 (* its workers as processes (query/worker.go Run :86, abstracted to        *)
 (* idle -> busy -> result handed back -> maybe exit) and the ranking of    *)
 (* query/peer_rank.go.                                                     *)
@@ -23,17 +23,19 @@
 (*             -1 Run returned, -2 stuck sending a result nobody takes     *)
 (*   verd, ans what callers see (see WorkManagerProps)                     *)
 (*                                                                         *)
-(* One action per select arm of the dispatcher:                            *)
-(*   Dispatch / Gone   the hand-off select :325 (send to the best-ranked   *)
-(*                     free worker | its onExit), enabled whenever the     *)
-(*                     heap is non-empty and a free worker exists; the     *)
-(*                     third arm (quit) is part of Stop.  If the chosen    *)
-(*                     worker is neither reading nor gone the dispatcher   *)
-(*                     is BLOCKED: nothing but Stop is enabled for it.     *)
-(*   Connect :355, Wake :385, Result :413 (sub-cases discard :433, cancel  *)
-(*   :451, maxtries :488, requeue :532, done :568, progress :578,          *)
-(*   hardtimeout :588), Query = NewBatch :625, Stop = quit :669 + deferred *)
-(*   shutdown verdicts :281.                                               *)
+(* One action per select arm of the dispatcher (line numbers: /repo with   *)
+(* the trace hooks and the stale-worker fix committed):                    *)
+(*   Dispatch / Gone   the hand-off select :327 (send to the best-ranked   *)
+(*                     free worker :328 | its onExit :341), enabled        *)
+(*                     whenever the heap is non-empty and a free worker    *)
+(*                     exists; the third arm (quit :346) is part of Stop.  *)
+(*                     If the chosen worker is neither reading nor gone    *)
+(*                     the dispatcher is BLOCKED: nothing but Stop is      *)
+(*                     enabled for it.                                     *)
+(*   Connect :361, Wake :392, Result :423 (free the slot :435, sub-cases   *)
+(*   discard :450, cancel :469, maxtries :508, requeue :552, done :588,    *)
+(*   hardtimeout :609, progress / re-arm :643), Query :703 = NewBatch      *)
+(*   :648, Stop :170 = quit :693 + deferred shutdown verdicts :281.        *)
 (* The sends on peersConnected, newBatches and jobResults are unbuffered,  *)
 (* so the environment's send and the dispatcher's arm are one step.  The   *)
 (* idle timer's callback and the wake arm are one step too: a wake that    *)
@@ -104,11 +106,10 @@ Reward(r, a)  == IF r[a] <= 0 THEN r ELSE [r EXCEPT ![a] = @ - 1]
 ResetR(r, a)  == IF r[a] < 0 THEN r ELSE [r EXCEPT ![a] = 4]
 
 ----------------------------------------------------------------------------
-\* :320-345  hand-off select, arm 1: the chosen worker takes the job.
-Dispatch ==
-  /\ Offering /\ CandProc = 0
-  /\ LET a == Cand
-         i == wk[a].inst
+\* :322-339  hand-off select, arm 1: worker a (free, reading) takes the job.
+DispatchTo(a) ==
+  /\ dsp = "run" /\ work # {} /\ a \in Free /\ ws[a][wk[a].inst] = 0
+  /\ LET i == wk[a].inst
          j == Next1
      IN  /\ work' = work \ {j}
          /\ wk' = [wk EXCEPT ![a].job = j]
@@ -117,15 +118,19 @@ Dispatch ==
          /\ Finish([NoAct EXCEPT !.op = "Dispatch", !.a = a, !.i = i, !.j = j,
                                  !.b = jobs[j].b, !.k = jobs[j].k])
 
-\* :338  hand-off select, arm 2: the chosen worker's Run has returned.
-Gone ==
-  /\ Offering /\ CandProc = -1
-  /\ LET a == Cand
-     IN  /\ wk' = [wk EXCEPT ![a] = [inst |-> 0, job |-> 0]]
-         /\ UNCHANGED <<bat, jobs, work, cq, rank, ws, verd, ans, dsp, cnt>>
-         /\ Finish([NoAct EXCEPT !.op = "Gone", !.a = a])
+\* The dispatcher offers the job to the best-ranked free worker first.
+Dispatch == Offering /\ DispatchTo(Cand)
 
-\* :355  a peer object arrives on the ConnectedPeers channel.
+\* :341  hand-off select, arm 2: the Run of free worker a has returned.
+GoneAt(a) ==
+  /\ dsp = "run" /\ work # {} /\ a \in Free /\ ws[a][wk[a].inst] = -1
+  /\ wk' = [wk EXCEPT ![a] = [inst |-> 0, job |-> 0]]
+  /\ UNCHANGED <<bat, jobs, work, cq, rank, ws, verd, ans, dsp, cnt>>
+  /\ Finish([NoAct EXCEPT !.op = "Gone", !.a = a])
+
+Gone == Offering /\ GoneAt(Cand)
+
+\* :361  a peer object arrives on the ConnectedPeers channel.
 Connect(a) ==
   /\ Waiting /\ cnt.conn < MaxConn
   /\ LET i == Len(ws[a]) + 1
@@ -137,15 +142,17 @@ Connect(a) ==
          /\ Finish([NoAct EXCEPT !.op = "Connect", !.a = a, !.i = i])
 
 \* worker.go :111  an idle worker's peer disconnects; Run returns.
-WorkerExit(a, i) ==
-  /\ Settled /\ cnt.exit < MaxExit
+WorkerExitAny(a, i) ==
+  /\ cnt.exit < MaxExit
   /\ i \in 1..Len(ws[a]) /\ ws[a][i] = 0
   /\ ws' = [ws EXCEPT ![a][i] = -1]
   /\ Bump("exit")
   /\ UNCHANGED <<bat, jobs, work, cq, wk, rank, verd, ans, dsp>>
   /\ Finish([NoAct EXCEPT !.op = "WorkerExit", !.a = a, !.i = i])
 
-\* Query :678 + NewBatch arm :625.
+WorkerExit(a, i) == Settled /\ WorkerExitAny(a, i)
+
+\* Query :703 + NewBatch arm :648.
 Query(n, retr, hard, prog) ==
   /\ Waiting /\ Len(bat) < MaxBatch
   /\ LET b  == Len(bat) + 1
@@ -163,7 +170,7 @@ Query(n, retr, hard, prog) ==
                                  !.hard = hard, !.prog = prog])
 
 \* Query while the dispatcher can take nothing (stuck in the hand-off, or
-\* dead): the caller blocks in `w.newBatches <-` (quit is not closed).
+\* dead): the caller blocks in `w.newBatches <-` :713 (quit is not closed).
 QueryBlocked(n, retr, hard, prog) ==
   /\ Blocked \/ dsp = "dead"
   /\ Len(bat) < MaxBatch
@@ -171,7 +178,7 @@ QueryBlocked(n, retr, hard, prog) ==
   /\ Finish([NoAct EXCEPT !.op = "Query", !.res = "blocked", !.b = Len(bat) + 1, !.n = n,
                           !.retr = retr, !.hard = hard, !.prog = prog])
 
-\* Query after Stop: :693.
+\* Query after Stop: :718.
 QueryStopped(n, retr, hard, prog) ==
   /\ dsp = "stopped" /\ Len(bat) < MaxBatch
   /\ bat' = Append(bat, [n |-> n, retr |-> retr, hard |-> hard, prog |-> prog,
@@ -188,17 +195,18 @@ EndBatch(B, b, v, closeInternal) ==
   [B EXCEPT ![b].live = FALSE,
             ![b].icancel = IF closeInternal THEN TRUE ELSE @]
 
-\* :413  a worker hands back its result (worker.go :246) and the dispatcher
+\* :423  a worker hands back its result (worker.go :246) and the dispatcher
 \* processes it.  e: 0 nil, 1 timeout, 2 disconnect, 3 canceled, 4 other.
-Result(a, i, e) ==
+ResultJ(a, i, j, e) ==
   /\ Waiting
-  /\ i \in 1..Len(ws[a]) /\ ws[a][i] > 0
-  /\ LET j  == ws[a][i]
-         jb == jobs[j].b
+  /\ i \in 1..Len(ws[a]) /\ j \in 1..Len(jobs)
+  /\ LET jb == jobs[j].b
          present == wk[a].inst # 0
          clear == IF FixStaleWorker THEN present /\ wk[a].job = j ELSE present
          wk1 == IF clear THEN [wk EXCEPT ![a].job = 0] ELSE wk
-         ws1 == [ws EXCEPT ![a][i] = IF e = 2 THEN -1 ELSE 0]
+         \* (a worker object handing back a job it does not hold exists only in
+         \* the repository's mock-worker tests; its own state is left alone)
+         ws1 == IF ws[a][i] = j THEN [ws EXCEPT ![a][i] = IF e = 2 THEN -1 ELSE 0] ELSE ws
          ans1 == IF e = 0 THEN [ans EXCEPT ![jb][jobs[j].k] = 1] ELSE ans
          bn == IF j \in cq THEN jb ELSE 1
          B  == bat[bn]
@@ -213,7 +221,8 @@ Result(a, i, e) ==
                            !.ok = IF e = 0 THEN @ + 1 ELSE @]
      /\ ws' = ws1 /\ ans' = ans1
      /\ IF ~present /\ ~FixStaleWorker
-        THEN \* nil-pointer dereference at :421; the deferred function :281
+        THEN \* nil-pointer dereference (r.activeJob = nil on a missing entry, :435
+             \* before the fix); the deferred function :281
              \* still hands ErrWorkManagerShuttingDown to every live batch.
              /\ dsp' = "dead"
              /\ verd' = [x \in 1..Len(verd) |-> IF bat[x].live THEN Append(verd[x], 5)
@@ -225,7 +234,7 @@ Result(a, i, e) ==
         /\ dsp' = dsp /\ wk' = wk1
         /\ LET requeued == /\ B.live /\ e \in {1, 2, 4}
                             /\ ~(B.retr # 0 /\ jobs[j].tries + 1 >= B.retr)
-           IN  cq' = IF requeued THEN cq \cup {j} ELSE cq \ {j}     \* :428 / :533
+           IN  cq' = IF requeued THEN cq \cup {j} ELSE cq \ {j}     \* :445 / :553
         /\ IF ~B.live
            THEN /\ UNCHANGED <<bat, jobs, work, rank, verd>>
                 /\ Finish(A("discard"))
@@ -244,7 +253,7 @@ Result(a, i, e) ==
                             /\ verd' = [verd EXCEPT ![bn] = Append(@, e)]
                             /\ work' = work
                             /\ Finish(A("maxtries"))
-                       ELSE \* requeue, then the hard-timeout check :587
+                       ELSE \* requeue :552, then the hard-timeout check :608
                             /\ work' = work \cup {j}
                             /\ IF B.hard = 1 /\ B.hardx
                                THEN /\ bat' = EndBatch(bat, bn, 1, TRUE)
@@ -268,6 +277,11 @@ Result(a, i, e) ==
                         /\ verd' = verd
                         /\ Finish(A("progress"))
 
+\* Workers hand back the job they hold.
+Result(a, i, e) ==
+  /\ i \in 1..Len(ws[a]) /\ ws[a][i] > 0
+  /\ ResultJ(a, i, ws[a][i], e)
+
 \* A worker wants to hand back its result while the dispatcher takes none
 \* (stuck in the hand-off select, or dead): worker.go :245 blocks.
 ResultBlocked(a, i, e) ==
@@ -285,7 +299,7 @@ ResultBlocked(a, i, e) ==
          /\ Finish([NoAct EXCEPT !.op = "Result", !.res = "blocked", !.a = a, !.i = i,
                                  !.j = j, !.b = jb, !.k = jobs[j].k, !.e = e])
 
-\* :385  idle timer of batch b, generation g, fires and its wake is consumed.
+\* :392  idle timer of batch b, generation g, fires and its wake is consumed.
 Wake(b, g) ==
   /\ Waiting
   /\ b \in 1..Len(bat) /\ bat[b].prog = 1 /\ g \in 1..bat[b].gen
@@ -304,13 +318,17 @@ Wake(b, g) ==
                  /\ Finish(A("timeout"))
 
 \* The caller closes the cancel channel it passed with the batch.
-Cancel(b) ==
+CancelAny(b) ==
   /\ Settled /\ cnt.cancel < MaxCancel
-  /\ b \in 1..Len(bat) /\ ~bat[b].cancel /\ bat[b].live
+  /\ b \in 1..Len(bat) /\ ~bat[b].cancel
   /\ bat' = [bat EXCEPT ![b].cancel = TRUE]
   /\ Bump("cancel")
   /\ UNCHANGED <<jobs, work, cq, wk, rank, ws, verd, ans, dsp>>
   /\ Finish([NoAct EXCEPT !.op = "Cancel", !.b = b])
+
+\* (cancelling a batch that already has its verdict changes nothing the
+\* dispatcher looks at: left out of the exhaustive configurations)
+Cancel(b) == b \in 1..Len(bat) /\ bat[b].live /\ CancelAny(b)
 
 \* The hard wall-clock deadline of batch b passes (time.After channel ready).
 HardFire(b) ==
@@ -321,16 +339,18 @@ HardFire(b) ==
   /\ Finish([NoAct EXCEPT !.op = "HardFire", !.b = b])
 
 \* Stop :170: close(quit); the dispatcher returns from whichever select it is
-\* in (:342 / :669), its deferred function hands ErrWorkManagerShuttingDown to
+\* in (:346 / :693), its deferred function hands ErrWorkManagerShuttingDown to
 \* every live batch, all workers return, wg.Wait() returns.
-Stop ==
-  /\ Settled \/ dsp = "dead"
+StopAny ==
+  /\ dsp # "stopped"
   /\ dsp' = "stopped"
   /\ verd' = [x \in 1..Len(verd) |-> IF bat[x].live THEN Append(verd[x], 5) ELSE verd[x]]
   /\ bat' = [x \in 1..Len(bat) |-> [bat[x] EXCEPT !.live = FALSE]]
   /\ ws' = [a \in Addrs |-> [x \in 1..Len(ws[a]) |-> -1]]
   /\ UNCHANGED <<jobs, work, cq, wk, rank, ans, cnt>>
   /\ Finish([NoAct EXCEPT !.op = "Stop"])
+
+Stop == (Settled \/ dsp = "dead") /\ StopAny
 
 Init ==
   /\ bat = <<>> /\ jobs = <<>> /\ work = {} /\ cq = {}
@@ -342,6 +362,7 @@ Init ==
   /\ abs = AbsInit /\ act = NoAct /\ viol = {}
 
 Opts == (1..MaxReq) \X Retries \X Hards \X Progs
+Opt1 == CHOOSE o \in Opts : TRUE
 
 Next ==
   \/ Dispatch
@@ -349,8 +370,8 @@ Next ==
   \/ \E a \in Addrs : Connect(a)
   \/ \E a \in Addrs : \E i \in 1..MaxConn : WorkerExit(a, i)
   \/ \E o \in Opts : Query(o[1], o[2], o[3], o[4])
-  \/ \E o \in Opts : QueryBlocked(o[1], o[2], o[3], o[4])
-  \/ \E o \in Opts : QueryStopped(o[1], o[2], o[3], o[4])
+  \/ QueryBlocked(Opt1[1], Opt1[2], Opt1[3], Opt1[4])     \* the options play no role there
+  \/ QueryStopped(Opt1[1], Opt1[2], Opt1[3], Opt1[4])
   \/ \E a \in Addrs : \E i \in 1..MaxConn : \E e \in 0..4 : Result(a, i, e)
   \/ \E a \in Addrs : \E i \in 1..MaxConn : \E e \in 0..4 : ResultBlocked(a, i, e)
   \/ \E b \in 1..MaxBatch : \E g \in 1..(MaxOk + 1) : Wake(b, g)
